@@ -40,7 +40,9 @@ BUDGET = {"quick": 90, "thorough": 1500}
 CHUNK = 8
 PROBES = ["pos", "wrongkey", "byz_client", "byz_server", "aead_keys_checked",
           "mac_checked", "finished_checked", "exporter_checked",
-          "expansion_checked", "split_1n1", "keyupdate_keys_checked"]
+          "expansion_checked", "split_1n1", "keyupdate_keys_checked",
+          "resume_other", "resume_same_hash", "resume_other_hash",
+          "dualcert", "dual_rsa", "dual_ecdsa"]
 COMPONENTS_REAL = ["tlslite handshake + record layer + constants tables"]
 COMPONENTS_STUB = ["socket", "os.urandom", "clock",
                    "byzantine peer = real TLSConnection with "
@@ -88,9 +90,167 @@ def plan(tier, base_seed):
                                      "ver": list(ver), "case": case,
                                      "rep": rep})
                         i += 1
+        # TLS 1.3: a session established under suite A is offered to a
+        # handshake that can only negotiate suite B
+        t13 = sorted(k for k in S if S[k].tls13 and
+                     k not in scen.NOT_OFFERED)
+        for a in t13:
+            for b in t13:
+                if a != b:
+                    jobs.append({"seed": seed0 + i, "sid": a, "sid2": b,
+                                 "ver": [3, 4], "case": "resume_other",
+                                 "rep": rep})
+                    i += 1
+        # dual-certificate servers: the certificate sent must be of the key
+        # type the negotiated suite's name denotes, whatever the client's
+        # signature-algorithm / suite restrictions
+        for ver in ([3, 3], [3, 1], [3, 4]):
+            for prim, alt in (("rsa", "ecdsa"), ("ecdsa", "rsa")):
+                for cl in DUAL_CLIENTS:
+                    jobs.append({"seed": seed0 + i, "sid": 0, "ver": ver,
+                                 "case": "dualcert", "rep": rep,
+                                 "dual": [prim, alt, cl]})
+                    i += 1
     for j in jobs[:3]:
         j["keep"] = True
     return jobs
+
+
+DUAL_CLIENTS = {
+    "default": {},
+    "ecdsa_sigs_only": {"rsaSigHashes": [], "dsaSigHashes": [],
+                        "rsaSchemes": ["pkcs1"]},
+    "rsa_sigs_only": {"ecdsaSigHashes": [], "dsaSigHashes": [],
+                      "more_sig_schemes": []},
+    "ecdsa_suites_only": {"keyExchangeNames": ["ecdhe_ecdsa"]},
+    "rsa_suites_only": {"keyExchangeNames": ["ecdhe_rsa", "dhe_rsa", "rsa"]},
+}
+OID_RSA = bytes.fromhex("06092a864886f70d010101")
+OID_EC = bytes.fromhex("06072a8648ce3d0201")
+
+
+def run_dualcert(job, ch, seed, policy, v, viol, probes):
+    from sim import observe
+    from tlslite.errors import TLSAlert
+    S = scen.all_suites()
+    prim, alt, cl = job["dual"]
+    ver = tuple(job["ver"])
+    sc = {"version": list(ver), "flavour": "cert", "skey": prim,
+          "alt_skeys": [alt],
+          "cset": dict({"minVersion": list(ver), "maxVersion": list(ver)},
+                       **DUAL_CLIENTS[cl]),
+          "sset": {"minVersion": list(ver), "maxVersion": list(ver)}}
+    sim = nodes.new_run(seed, chooser=ch, max_steps=100000)
+    try:
+        pair = nodes.Pair(sim, sc, policy=policy,
+                          wb_budget=kernel.Budget(20),
+                          delay_budget=kernel.Budget(20))
+    except ValueError as e:
+        return _result(job, ch, sim, None, viol, probes, False,
+                       "settings:%s" % e)
+    tc, ts = taps.SendTap(pair.c.conn), taps.SendTap(pair.s.conn)
+    tc.keep_plain = ts.keep_plain = True
+    try:
+        oc, os_, st = pair.handshake()
+    except ValueError as e:
+        return _result(job, ch, sim, pair, viol, probes, False,
+                       "settings:%s" % e)
+    obs = observe.observe(pair, tc, ts)
+    both = oc.kind == "ok" and os_.kind == "ok"
+    smsgs = hs_messages([r[4] for r in ts.records if r[0] == 22])
+    certs = [m for m in smsgs if m[0] == 11]
+    if "sh" in obs and certs and ver < (3, 4):
+        sid = obs["sh"]["suite"]
+        auth = S[sid].auth if sid in S else None
+        # first certificate of the list
+        body = certs[0][4:]
+        ln = int.from_bytes(body[3:6], "big")
+        ee = bytes(body[6:6 + ln])
+        kt = "rsa" if OID_RSA in ee else ("ecdsa" if OID_EC in ee else "?")
+        probes["dual_" + kt] = 1
+        if auth in ("rsa", "ecdsa") and kt != auth:
+            v("wrong_key_type", "dualcert|%s|%s" % (auth, kt),
+              "ServerHello selected %s (authentication: %s) but the "
+              "certificate sent carries a %s key [server %s+%s, client %s, "
+              "completed=%s]" % (S[sid].name, auth, kt, prim, alt, cl, both))
+        for w, conn in (("c", pair.c.conn), ("s", pair.s.conn)):
+            if conn.session is not None and both and \
+                    conn.session.cipherSuite != sid:
+                v("accessor", "dualcert|" + w, "%s session.cipherSuite %#x, "
+                  "wire %#x" % (w, conn.session.cipherSuite, sid))
+    for o in (oc, os_):
+        if o.kind == "exc" and not isinstance(o.exc, (TLSAlert, OSError)):
+            from sim.trace import where
+            v("exception", "dualcert|%s|%s" % (type(o.exc).__name__,
+                                               where(o.exc)),
+              "handshake raised %r [server %s+%s, client %s, ver %s]" %
+              (o.exc, prim, alt, cl, ver))
+    if cl == "default" and not both:
+        v("handshake", "dualcert|default", "default client could not "
+          "connect to a dual-certificate server: %r %r" % (oc.exc, os_.exc))
+    return _result(job, ch, sim, pair, viol, probes, both, "dual")
+
+
+def run_resume_other(job, ch, seed, policy, v, viol, probes):
+    from sim import observe, script as sim_script
+    S = scen.all_suites()
+    a, b = job["sid"], job["sid2"]
+    sc1 = scen.suite_scenario(a, (3, 4))
+    sc1["sset"]["ticketKeys"] = ["55" * 32]
+    sc1["sset"]["ticket_count"] = 1
+    sim = nodes.new_run(seed, chooser=ch, max_steps=100000)
+    pair = nodes.Pair(sim, sc1, policy=policy, wb_budget=kernel.Budget(20),
+                      delay_budget=kernel.Budget(20))
+    oc, os_, st = pair.handshake()
+    if not (oc.kind == "ok" and os_.kind == "ok"):
+        v("handshake", "first", "first handshake failed: %r %r" %
+          (oc.exc, os_.exc))
+        return _result(job, ch, sim, pair, viol, probes, False, "ro")
+    sim_script.run_script(
+        sim, {"c": pair.c, "s": pair.s},
+        [["s", "w"], ["c", "r"], ["c", "close"], ["s", "r0"]],
+        lambda ep, op: {
+            "w": lambda: ep.conn.writeAsync(b"first"),
+            "r": lambda: ep.conn.readAsync(None, 5),
+            "r0": lambda: ep.conn.readAsync(None, 1),
+            "close": lambda: ep.conn.closeAsync()}[op[1]])
+    session = pair.c.conn.session
+    if not session.tickets:
+        v("handshake", "no_ticket", "no TLS 1.3 ticket was delivered")
+    sim.links.remove(pair.link)
+    sim.eps.remove(pair.c)
+    sim.eps.remove(pair.s)
+    sc2 = scen.suite_scenario(b, (3, 4))
+    sc2["sset"]["ticketKeys"] = ["55" * 32]
+    pair2 = nodes.Pair(sim, sc2, policy=policy, wb_budget=kernel.Budget(20),
+                       delay_budget=kernel.Budget(20),
+                       cnode=kernel.Node("c2", seed),
+                       snode=kernel.Node("s2", seed))
+    tc, ts = taps.SendTap(pair2.c.conn), taps.SendTap(pair2.s.conn)
+    tc.keep_plain = ts.keep_plain = True
+    try:
+        oc, os_, st = pair2.handshake(session=session)
+    except ValueError:
+        # API-level refusal of the offered session
+        return _result(job, ch, sim, pair2, viol, probes, True, "ro-api")
+    obs = observe.observe(pair2, tc, ts)
+    resumed = "sh" in obs and 41 in obs["sh"]["ext"]
+    same = S[a].prf == S[b].prf
+    probes["resume_same_hash" if same else "resume_other_hash"] = 1
+    if resumed and not same:
+        v("psk_hash", "%s->%s" % (S[a].prf, S[b].prf),
+          "a ticket issued under %s (hash %s) was accepted as PSK for a "
+          "handshake that negotiated %s (hash %s): the PRF hash in use is "
+          "not the one the suite's name denotes" %
+          (S[a].name, S[a].prf, S[b].name, S[b].prf))
+    if not (oc.kind == "ok" and os_.kind == "ok"):
+        v("handshake", "second|%s" % ("same" if same else "other"),
+          "offering a session of another suite broke the handshake: %r %r"
+          % (oc.exc, os_.exc))
+    elif obs["sh"]["suite"] != b:
+        v("suite", "second", "negotiated %#x, only %#x was offered" %
+          (obs["sh"]["suite"], b))
+    return _result(job, ch, sim, pair2, viol, probes, True, "ro")
 
 
 def hello_random(pipe, want_type):
@@ -118,7 +278,7 @@ def run(job, streams=None):
     sid = job["sid"]
     ver = tuple(job["ver"])
     case = job["case"]
-    suite = scen.all_suites()[sid]
+    suite = scen.all_suites().get(sid)
     etm = job.get("etm", True)
     ch = kernel.Chooser(seed=seed) if streams is None else \
         kernel.Chooser(streams=streams)
@@ -126,13 +286,17 @@ def run(job, streams=None):
     policy = "ideal" if rep == 0 else "random"
     viol = []
     probes = {case: 1}
-    ctx = "[suite=%s %#06x ver=%s case=%s etm=%s]" % (suite.name, sid, ver,
-                                                     case, etm)
+    ctx = "[suite=%s %#06x ver=%s case=%s etm=%s]" % (
+        suite.name if suite else job.get("dual"), sid, ver, case, etm)
 
     def v(rule, sig, msg):
         viol.append({"rule": rule, "sig": "%s|%s" % (case, sig),
                      "msg": msg + " " + ctx})
 
+    if case == "resume_other":
+        return run_resume_other(job, ch, seed, policy, v, viol, probes)
+    if case == "dualcert":
+        return run_dualcert(job, ch, seed, policy, v, viol, probes)
     sc = scen.suite_scenario(sid, ver, etm)
     if case == "wrongkey":
         other = {"rsa": "ecdsa", "ecdsa": "rsa", "dsa": "rsa"}[suite.auth]
@@ -539,7 +703,7 @@ def _result(job, ch, sim, pair, viol, probes, nontrivial, tag):
     h.update(tag.encode())
     h.update(json.dumps([x["sig"] for x in viol]).encode())
     key = json.dumps([job["sid"], job["ver"], job["case"], job.get("etm"),
-                      job.get("rep")])
+                      job.get("rep"), job.get("sid2"), job.get("dual")])
     return {"violations": viol, "nontrivial": nontrivial, "key": key,
             "digest": h.hexdigest(), "faults": dict(sim.stats),
             "probes": probes, "steps": sim.steps,
